@@ -3,7 +3,7 @@
 wt=$1
 cd $wt || exit 2
 export CARGO_TARGET_DIR=$wt/target
-echo "== suite with change"; cargo nextest run --workspace --no-fail-fast --offline --test-threads 8 2>&1 | tail -2
+echo "== suite with change"; timeout 900 cargo nextest run --workspace --no-fail-fast --offline --test-threads 8 2>&1 | grep -E "Summary|FAIL|SIGKILL|TIMEOUT" | head -5
 echo "== demo with change (expect non-zero)"; bash _seed/demo/run.sh > _seed/confirm_with.log 2>&1; echo "rc=$?"
 git stash -q -- . ':!_seed' 2>/dev/null || git stash -q
 echo "== demo without change (expect 0)"; bash _seed/demo/run.sh > _seed/confirm_without.log 2>&1; echo "rc=$?"
